@@ -49,6 +49,15 @@ func anyClass(outcome string) string {
 	return outcome
 }
 
+// decodeAnyK: the untyped reader on the document in some of its Go shapes, compared with the model
+func (x *runner) decodeAnyK(t Ty, doc *D, sig string) string {
+	shaped := doc.clone()
+	goShapes(shaped, x.rng.Intn)
+	impl := x.b.DecodeAny(t, shaped, nil, 0)
+	x.askAny(t, shaped, nil, 0, impl, sig)
+	return impl
+}
+
 // askAny compares the untyped reader's outcome with the model's. Go enumerates a map in no
 // particular order, so a document with two faulty members may fail on either: the decode is
 // repeated and a document whose outcome varies is left to the direct oracle.
@@ -155,6 +164,7 @@ func (x *runner) runAnyK(types []Ty, n int) {
 					x.env.dropFields(t, doc, x.rng, 30, true)
 				}
 			}
+			goShapes(doc, x.rng.Intn)
 			impl := x.b.DecodeAny(t, doc, nil, 0)
 			x.r.OracleCases++
 			x.r.Count("any-confused:" + strings.SplitN(impl+" ", " ", 3)[0] + " " + strings.SplitN(impl+"  ", " ", 3)[1])
